@@ -49,7 +49,7 @@ var c06Opts = []ttlCall{
 	{2 * time.Hour, true}, {2 * time.Hour, false}, {-time.Second, true}, {-time.Second, false},
 }
 
-func c06Behaviours() [][]ttlCall {
+func c06Behaviours(tier string) [][]ttlCall {
 	res := [][]ttlCall{nil}
 
 	for _, a := range c06Opts {
@@ -59,6 +59,17 @@ func c06Behaviours() [][]ttlCall {
 	for _, a := range c06Opts {
 		for _, b := range c06Opts {
 			res = append(res, []ttlCall{a, b})
+		}
+	}
+
+	// thorough: triples, appended so that indices of the shorter behaviours stay the same in both tiers
+	if tier == "thorough" {
+		for _, a := range c06Opts {
+			for _, b := range c06Opts {
+				for _, c := range c06Opts {
+					res = append(res, []ttlCall{a, b, c})
+				}
+			}
 		}
 	}
 
@@ -150,7 +161,7 @@ func c06Run(c Cell, env *Env) CellResult {
 		cfg.Threads = [][]GOp{{op}}
 	}
 
-	behaviours := c06Behaviours()
+	behaviours := c06Behaviours(env.Tier)
 	if env.Replay != nil {
 		var idx int
 		_ = json.Unmarshal(env.Replay.Extra, &idx)
@@ -371,7 +382,7 @@ func init() {
 	Register(&Prop{
 		ID: "C06", Title: "TTL and context travel through Failover as documented",
 		Cells: c06Cells, Run: c06Run,
-		Rule: "grid caller TTL {no cell, 0, 10s, 1h, -1s} x builder behaviour (every sequence of <=2 WithTTL(ctx,b,upd) calls, b in {0,5s,2h,-1s}, upd in {true,false}: 73) x path {cold miss, sync update of a stale value, background update, waiter, SkipRead on a fresh entry} " +
+		Rule: "grid caller TTL {no cell, 0, 10s, 1h, -1s} x builder behaviour (every sequence of <=2 (quick: 73) / <=3 (thorough: 585) WithTTL(ctx,b,upd) calls, b in {0,5s,2h,-1s}, upd in {true,false}) x path {cold miss, sync update of a stale value, background update, waiter, SkipRead on a fresh entry} " +
 			"x caller context {never cancelled, cancelled before, cancelled after, carrying a deadline} x 3 front-ends; each case under the scheduler with all schedules (unbounded, HB cached); a recording backend wrapper notes TTL(ctx) of every Write, the builder notes Err/Done/Deadline/Value of its context",
 		Assumptions: []string{
 			"'smallest non-zero' is taken over signed durations (a negative TTL is smaller than any positive one), as the implementation's comparison does",
